@@ -100,6 +100,14 @@ class BytePtr(Ptr):
         self.scale = scale
 
 
+class WidePtr(Ptr):
+    """pointer to `step`-byte units inside a byte-indexed buffer ((uint_least16_t *)bytes)"""
+    __slots__ = ('step',)
+    def __init__(self, obj, path, step):
+        Ptr.__init__(self, obj, path)
+        self.step = step
+
+
 class FnRef:
     def __init__(self, name): self.name = name
     def __eq__(self, o): return isinstance(o, FnRef) and o.name == self.name
@@ -521,6 +529,8 @@ class Interp:
         raise Unsupported('lv %s at %s' % (k, self.where(e)))
 
     def padd(self, p, n):
+        if isinstance(p, WidePtr):
+            return WidePtr(p.obj, p.path[:-1] + (p.path[-1] + n * p.step,), p.step)
         if isinstance(p, BytePtr):
             if n % p.scale:
                 raise Unsupported('byte pointer moved by %d, element size %d' % (n, p.scale))
@@ -784,6 +794,16 @@ class Interp:
                 except OverflowError:
                     return float('inf') if v > 0 else float('-inf')
             return v
+        if ck == 'BitCast' and isinstance(v, Ptr) and getattr(v.obj, 'bytebuf', False) and v.path and isinstance(v.path[-1], int):
+            tq = qstr(e['type']).strip()
+            m = re.match(r'^(const )?(.*?) \*( const| restrict)?$', tq)
+            w = 1
+            if m:
+                it_ = int_type(m.group(2))
+                if it_: w = max(1, it_[0] // 8)
+            if w > 1:
+                return WidePtr(v.obj, v.path, w)
+            return Ptr(v.obj, v.path)
         if ck in ('NoOp', 'BitCast'):
             if ck == 'BitCast' and isinstance(v, Ptr) and not isinstance(v, BytePtr) and getattr(v.obj, 'elemsize', 0) > 1 \
                     and re.match(r'^(const )?(unsigned |signed )?char \*( const| restrict)?$', qstr(e['type']).strip()) and v.path and isinstance(v.path[-1], int):
@@ -1561,14 +1581,14 @@ class Run:
     def __init__(self): pass
 
 
-def explore(prog, runner, models=None, max_runs=20000, on_unsupported='raise'):
+def explore(prog, runner, models=None, max_runs=20000, on_unsupported='raise', cls=None):
     """Enumerate all paths of `runner(interp)` by re-execution DFS.
     runner returns a value or raises Terminal.  -> list of Run"""
     stack = [[]]
     runs = []
     while stack:
         prefix = stack.pop()
-        it = Interp(prog, models, prefix)
+        it = (cls or Interp)(prog, models, prefix)
         r = Run()
         r.interp = it
         try:
